@@ -11,6 +11,8 @@ in : {"task":"table"}                                  -> {"options":[{name,type
 A case is {"id","mode","fstate","file":[{name,text}],"env":[{name,text}],"cli":[{name,has,arg}],
 "eff":[{name,cls}]}; for the table modes ("table","ext","rtable") `eff` is concretised here
 (which source carries each value, which spelling; seeded), otherwise the layers are used verbatim.
+--conf=<generated file> is put on the command line by the driver (and reported in the trace's cli layer);
+in mode "conf" the case itself says whether it is there (a cli row conf with the placeholder argument).
 """
 import json
 import os
@@ -119,6 +121,7 @@ def validate(self):
 InsightsConfig._imply_options = imply
 InsightsConfig._validate_options = validate
 
+CONF_SHORT = next((x for x in DEFAULT_OPTS["conf"].get("opt", []) if not x.startswith("--")), None)
 ENV_T, ENV_F = ["true", "True", "TRUE"], ["false", "False", "FALSE"]
 FILE_T, FILE_F = ["1", "yes", "true", "on", "True", "YES"], ["0", "no", "false", "off", "False", "NO"]
 
@@ -195,12 +198,28 @@ def run_case(case, base, rng, stats):
     os.environ.pop("HTTP_PROXY", None)
     for r in env:
         os.environ["INSIGHTS_" + r["name"].upper()] = r["text"]
-    noconf = fstate == "missing" and rng.random() < 0.5 and \
-        not os.path.exists(TABLE["conf"]["def"]["s"])
-    argv = ["insights-client"] + ([] if noconf else ["--conf=" + conf])
-    for r in cli:
+    default_conf_exists = os.path.exists(TABLE["conf"]["def"]["s"])
+    if case["mode"] == "conf":
+        # the case says itself whether --conf is on the command line (CONF_ARG stands for the generated
+        # file's path); without it load_all() reads the built-in default path, which must not exist
+        noconf = not any(r["name"] == "conf" for r in cli)
+        if noconf and (fstate != "missing" or default_conf_exists):
+            noconf = False
+        cli = [r for r in cli if r["name"] != "conf"]
+    else:
+        noconf = fstate == "missing" and rng.random() < 0.5 and not default_conf_exists
+    argv = ["insights-client"]
+    rows = list(cli)
+    if not noconf:
+        # --conf first, last or (short form -c) in the middle of the other switches
+        rows.insert(rng.randrange(len(rows) + 1) if case["mode"] == "conf" else 0,
+                    {"name": "conf", "has": True, "arg": conf})
+    for r in rows:
         flag = TABLE[r["name"]]["flag"]
-        argv.append(flag + "=" + r["arg"] if r["has"] else flag)
+        if r["name"] == "conf" and case["mode"] == "conf" and CONF_SHORT and rng.random() < 0.5:
+            argv.extend([CONF_SHORT, conf])
+        else:
+            argv.append(flag + "=" + r["arg"] if r["has"] else flag)
     cli_obs = list(cli) + ([] if noconf else [{"name": "conf", "has": True, "arg": conf}])
     injected = {}
     for layer, rows in (("file", file_ if fstate == "ok" else []), ("env", env)):
